@@ -787,7 +787,16 @@ REFACTORS += [
                     (next_file_number, file)
                 } else {
                     let next_file_number = self.directory.files.inc(&self.file_number);
-                    let file = create_file(&self.directory.dir, &next_file_number)?;
+                    let file = match create_file(&self.directory.dir, &next_file_number) {
+                        Ok(file) => file,
+                        Err(io_err) => {
+                            // The file was not created: stop tracking its number, so that a retry
+                            // goes through the exclusive creation again instead of opening
+                            // whatever happens to bear that name.
+                            self.directory.files.untrack(&next_file_number);
+                            return Err(io_err);
+                        }
+                    };
                     (next_file_number, file)
                 };
 
@@ -810,7 +819,13 @@ REFACTORS += [
                 (next_file_number, file)
             } else {
                 let next_file_number = self.directory.files.inc(&self.file_number);
-                let file = create_file(&self.directory.dir, &next_file_number)?;
+                let file = match create_file(&self.directory.dir, &next_file_number) {
+                    Ok(file) => file,
+                    Err(io_err) => {
+                        self.directory.files.untrack(&next_file_number);
+                        return Err(io_err);
+                    }
+                };
                 (next_file_number, file)
             };
 
@@ -1407,4 +1422,87 @@ REFACTORS += [
          edits=[(RRD, '                Err(ReadFrameError::NotAvailable) => {\n                    return Ok(false);', '                Err(ReadFrameError::NotAvailable) => {\n                    if self.within_record {\n                        self.within_record = false;\n                        self.record_buffer.clear();\n                    }\n                    return Ok(false);')]),
     dict(name='into_writer_cursor_named', desc='into_writer: cursor read into a local before the reader is consumed',
          edits=[(FRD, '        let mut rolling_writer: RollingWriter = self.reader.into_writer()?;\n        rolling_writer.forward(self.cursor)?;', '        let resume_at: usize = self.cursor;\n        let mut rolling_writer: RollingWriter = self.reader.into_writer()?;\n        rolling_writer.forward(resume_at)?;')]),
+]
+
+MUTANTS += [
+    dict(name='next_position_from_first_meta', props=['C04', 'C01'], rules=['MQ4'], desc='next_position() reads the FIRST record meta',
+         edits=[(Q, '        self.record_metas\n            .last()\n            .map(|record| record.position + 1)\n            .unwrap_or(self.start_position)', '        self.record_metas\n            .first()\n            .map(|record| record.position + 1)\n            .unwrap_or(self.start_position)')]),
+    dict(name='next_position_is_last_position', props=['C04', 'C01'], rules=['MQ4'], desc='next_position() answers the last position itself',
+         edits=[(Q, '            .map(|record| record.position + 1)\n            .unwrap_or(self.start_position)', '            .map(|record| record.position)\n            .unwrap_or(self.start_position)')]),
+    dict(name='meta_offset_after_extend', props=['C04', 'C01'], rules=['MQ4'], desc='append_record extends the payload buffer before reading its length for the meta',
+         edits=[(Q, '        let record_meta = RecordMeta {\n            start_offset: self.concatenated_records.len(),', '        self.concatenated_records.extend(payload);\n        let record_meta = RecordMeta {\n            start_offset: self.concatenated_records.len(),'),
+                (Q, '        self.record_metas.push(record_meta);\n        self.concatenated_records.extend(payload);', '        self.record_metas.push(record_meta);')]),
+]
+
+REFACTORS += [
+    dict(name='next_position_match_form', desc='next_position() as a match on record_metas.last()',
+         edits=[(Q, '        self.record_metas\n            .last()\n            .map(|record| record.position + 1)\n            .unwrap_or(self.start_position)', '        match self.record_metas.last() {\n            Some(record) => 1 + record.position,\n            None => self.start_position,\n        }')]),
+    dict(name='meta_offset_named_local', desc='append_record reads the buffer length into a local before building the meta',
+         edits=[(Q, '        let record_meta = RecordMeta {\n            start_offset: self.concatenated_records.len(),', '        let start_offset = self.concatenated_records.len();\n        let record_meta = RecordMeta {\n            start_offset,')]),
+]
+
+MUTANTS += [
+    dict(name='record_window_ends_two_metas_on', props=['C01', 'C08'], rules=['RB2'], desc='range(): the end of a record window is read from the meta two places on',
+         edits=[(Q, 'if let Some(next_record_meta) = self.record_metas.get(idx + 1) {', 'if let Some(next_record_meta) = self.record_metas.get(idx + 2) {')]),
+    dict(name='record_window_starts_at_next_meta', props=['C01', 'C08'], rules=['RB2'], desc='range(): the window starts at the offset of the next meta whenever there is one',
+         edits=[(Q, '''                let payload = if let Some(next_record_meta) = self.record_metas.get(idx + 1) {
+                    let end_offset = next_record_meta.start_offset;
+                    self.concatenated_records
+                        .get_range(start_offset..end_offset)''', '''                let payload = if let Some(next_record_meta) = self.record_metas.get(idx + 1) {
+                    let end_offset = next_record_meta.start_offset;
+                    self.concatenated_records
+                        .get_range(start_offset.max(end_offset)..end_offset)''')]),
+    dict(name='last_record_cut_at_first_meta', props=['C01', 'C08'], rules=['RB2'], desc='last_record(): payload cut from the start offset of the first meta',
+         edits=[(Q, '            payload: self.concatenated_records.get_range(record.start_offset..),', '            payload: self\n                .concatenated_records\n                .get_range(self.record_metas.first().map_or(0, |first| first.start_offset)..),')]),
+]
+
+REFACTORS += [
+    dict(name='record_window_match_form', desc='range(): the next meta looked up with a match, bounds named',
+         edits=[(Q, '''                let payload = if let Some(next_record_meta) = self.record_metas.get(idx + 1) {
+                    let end_offset = next_record_meta.start_offset;
+                    self.concatenated_records
+                        .get_range(start_offset..end_offset)
+                } else {
+                    self.concatenated_records.get_range(start_offset..)
+                };''', '''                let next_idx = idx + 1;
+                let payload = match self.record_metas.get(next_idx) {
+                    None => self.concatenated_records.get_range(start_offset..),
+                    Some(next_record_meta) => self
+                        .concatenated_records
+                        .get_range(start_offset..next_record_meta.start_offset),
+                };''')]),
+]
+
+MUTANTS += [
+    dict(name='revert_fix4_failed_creation_stays_tracked', props=['C17', 'C06'], rules=['GC13'], desc='revert of fix b18ff6e: the number minted for the next file stays tracked when create_file fails',
+         edits=[(DIR, '''                    let file = match create_file(&self.directory.dir, &next_file_number) {
+                        Ok(file) => file,
+                        Err(io_err) => {
+                            // The file was not created: stop tracking its number, so that a retry
+                            // goes through the exclusive creation again instead of opening
+                            // whatever happens to bear that name.
+                            self.directory.files.untrack(&next_file_number);
+                            return Err(io_err);
+                        }
+                    };''', '''                    let file = create_file(&self.directory.dir, &next_file_number)?;''')]),
+    dict(name='untrack_on_every_roll_over', props=['C01', 'C02', 'C03', 'C06'], rules=['GC4'], desc='the number of the CURRENT file is un-tracked after a successful roll-over (removal by key outside the failed-creation arm)',
+         edits=[(DIR, '            self.file = BufWriter::with_capacity(FRAME_NUM_BYTES, file);\n            self.file_number = file_number;', '            self.file = BufWriter::with_capacity(FRAME_NUM_BYTES, file);\n            self.directory.files.untrack(&self.file_number);\n            self.file_number = file_number;')]),
+]
+
+REFACTORS += [
+    dict(name='failed_creation_untracks_via_map_err', desc='the un-tracking of fix b18ff6e written with map_err and ?',
+         edits=[(DIR, '''                    let file = match create_file(&self.directory.dir, &next_file_number) {
+                        Ok(file) => file,
+                        Err(io_err) => {
+                            // The file was not created: stop tracking its number, so that a retry
+                            // goes through the exclusive creation again instead of opening
+                            // whatever happens to bear that name.
+                            self.directory.files.untrack(&next_file_number);
+                            return Err(io_err);
+                        }
+                    };''', '''                    let files = &mut self.directory.files;
+                    let file = create_file(&self.directory.dir, &next_file_number).map_err(|io_err| {
+                        files.untrack(&next_file_number);
+                        io_err
+                    })?;''')]),
 ]
